@@ -44,6 +44,7 @@ class _KconfiglibProxy:
 
     def Kconfig(self, *a, **kw):
         simproc.fresh_report()
+        simproc.next_process()
         k = self._real.Kconfig(*a, **kw)
         self._sink.append(k)
         simproc.BOOT_CHOICE_DEFAULTS[id(k)] = (k, [list(c.defaults) for c in k.unique_choices])
